@@ -22,7 +22,7 @@ ASSUMPTIONS = [
 NSHARDS = {"quick": 16, "thorough": 16}
 N_CASES = {"quick": 260, "thorough": 50000}
 N_SIM = {"quick": 12, "thorough": 1500}
-REQUIRE = {"kill_pool_level": 1000, "ticks_with_more_than_8_pool_level_kills": 10, "ticks_with_pool_level_victims": 400, "ticks_with_multiple_victims": 50,
+REQUIRE = {"scale:script_with_more_than_1000_exits_on_one_pool": 1, "kill_pool_level": 1000, "ticks_with_more_than_8_pool_level_kills": 10, "ticks_with_pool_level_victims": 400, "ticks_with_multiple_victims": 50,
            "ticks_usage_order_differs_from_score_order": 50, "cases_with_ties": 20, "sim_kills_pool_level": 20}
 
 
